@@ -1018,6 +1018,10 @@ def concat(ctx: Ctx, parts, axis=0):
     dt = parts[0].dtype
     for p in parts[1:]:
         dt = join_dtype(dt, p.dtype)
+    # blocks with no entries along the axis contribute nothing
+    nonempty = [p for p in parts if not (isinstance(p.shape[axis], int) and p.shape[axis] == 0)]
+    if nonempty and len(nonempty) < len(parts):
+        parts = nonempty
     offs = [0]
     for p in parts:
         offs.append(T.add(offs[-1], p.shape[axis]))
